@@ -140,6 +140,7 @@ func (vm *Vm) Run(ctx context.Context, b []byte) ([]byte, error) {
 		if waitChange {
 			vm.st.ResetFlag(state.FLAG_INMATCH)
 			vm.pg.Reset()
+			vm.pg.WithError(nil)
 			vm.mn.Reset()
 		}
 
